@@ -81,6 +81,10 @@ def run(tier):
                     return la != lb and a != b and a % m == b % m
                 extra = [s_ for s_ in lst if special(s_) and s_ not in pick]
                 pick = pick + (extra if len(extra) <= 6 else rng.sample(extra, 6))
+            # comparisons with a constant: the cases where the value IS the constant (every width, incl. constants whose
+            # bit length is a multiple of the limb size)
+            if f == "big" and op == "is_equal_to_fixed":
+                pick = pick + [s_ for s_ in lst if s_["params"] and s_["params"][0] == s_["ins"][0] and s_ not in pick]
             indom = [s for s in pick if s["dom"] and k_of(s) <= 12]
             tam = set(id(s) for s in rng.sample(indom, min(len(indom), ntam))) if op not in NO_TAMPER else set()
             for s in pick:
